@@ -204,6 +204,13 @@ def run_case(kind, p):
                 pat.get_mask(s)
             if not np.array_equal(pat.get_mask(shape), m):
                 msgs.append(f"{name}: re-query after other shapes changed the mask")
+            # the returned array is the caller's: modifying it in place must not change a later answer
+            keep = m.copy()
+            mm = pat.get_mask(shape)
+            mm *= -2.0
+            mm += 3.0
+            if not np.array_equal(pat.get_mask(shape), keep):
+                msgs.append(f"{name}: re-query after the caller modified a returned mask in place differs")
             # "the template is the real FFT of the mask" also after a parameter of the (already used) object was changed
             pat.radius = pat.radius * 0.9
             m2 = pat.get_mask(shape)
@@ -234,6 +241,22 @@ def run_case(kind, p):
                     else:
                         continue
                     break
+            # "re-queried ... in any order with identical results": whatever the caller does with an array it got back
+            # (it is the caller's own array) must not change later answers, nor the array handed to the constructor
+            src = tmpl.copy()
+            pat = pt.UserTemplate(src)
+            seq = [tuple(q) for q in p.get("queries", [s, (max(1, s[0] - 1), max(1, s[1] - 2)), t])]
+            for q in seq:
+                mq = pat.get_mask(q)
+                mq *= -3.0
+                mq += 7.0
+            again = pat.get_mask(t)
+            if again.shape != got.shape or not np.array_equal(again, got):
+                msgs.append(f"user template {s}->{t}: after the caller modified masks returned for {seq} in place, a re-query "
+                            f"differs from the first answer (max diff {np.abs(again - got).max() if again.shape == got.shape else 'shape'})")
+            if not np.array_equal(src, tmpl):
+                msgs.append(f"user template {s}: the array handed to the constructor was modified through a returned mask "
+                            f"(queries {seq})")
         elif kind == "ctor":
             cls = {"circular": pt.Circular, "radial_gradient": pt.RadialGradient,
                    "background_subtraction": pt.BackgroundSubtraction,
